@@ -11,7 +11,7 @@ import json, os
 from ..common import Check, MachineryError, main_wrapper
 
 PID = 'C13'
-LOWER = {'FOO': 'foo', 'BAR': 'bar', 'A': 'a', 'B': 'b', 'AB': 'ab', 'X2': 'x2', 'BIG': 'big'}
+LOWER = {'FOO': 'foo', 'BAR': 'bar', 'A': 'a', 'B': 'b', 'AB': 'ab', 'ABX': 'abx', 'X2': 'x2', 'BIG': 'big'}
 VOCAB = sorted(LOWER)
 # type spelling -> (type class after alias resolution, expected GI type name)
 TYPES = {'guint8': 'guint8', 'guint16': 'guint16', 'guint32': 'guint32', 'guint64': 'guint64',
@@ -36,7 +36,7 @@ def run():
     from .. import scan as S
     ck.assumptions += ['symgen conventions of harness/scan.py (typedef enum -> CSYMBOL_TYPE_TYPEDEF/CTYPE_ENUM with enumerator children; '
                        '#define with a cast -> CSYMBOL_TYPE_CONST with base_type)',
-                       'member words drawn from a 7-word vocabulary (lower-casing is a table in the spec)',
+                       'member words drawn from a 8-word vocabulary (lower-casing is a table in the spec)',
                        'enumeration members carry the namespace prefix unless a case says otherwise (the statement is silent there)']
     replay = json.load(open(ck.args.replay))['replay'] if ck.args.replay else None
 
@@ -70,6 +70,14 @@ def run():
             ok = all(not (i != j and ms[j][:len(ms[i])] == ms[i]) for i in range(n) for j in range(n))
             if ok:
                 enums.append(dict(ms=ms, bitfield=rng.random() < 0.3, src='random'))
+        # directed: members whose last word is a CHARACTER prefix of the others' last words without being a
+        # shared WORD (FOO_WIDTH_INT / _INT8 / _INT16): a character-wise common prefix is not the word-wise one
+        import itertools
+        for shared in ([], ['FOO'], ['FOO', 'BAR'], ['BAR', 'BIG']):
+            for tails in (['A', 'AB', 'ABX'], ['A', 'AB'], ['AB', 'ABX'], ['A', 'ABX'], ['A', 'AB', 'ABX', 'B']):
+                for perm in itertools.permutations(tails):
+                    enums.append(dict(ms=[shared + [t] for t in perm], bitfield=False, src='directed char-prefix'))
+                    enums.append(dict(ms=[['FOO'] + shared + [t, 'X2'] for t in perm], bitfield=True, src='directed char-prefix'))
         for _ in range(n_rand):
             t = rng.choice(sorted(TYPES))
             bits = rng.choice([7, 8, 9, 15, 16, 17, 31, 32, 33, 63, 64])
